@@ -1,0 +1,11 @@
+//go:build verif
+
+package overlord
+
+// VerifEnsureTimerSetup arms the ensure timer the way Loop does, without
+// starting the ensure loop, so that a verification harness can drive
+// TaskRunner.Ensure itself on a fully constructed Overlord. Only available
+// in builds with the "verif" tag.
+func (o *Overlord) VerifEnsureTimerSetup() {
+	o.ensureTimerSetup()
+}
